@@ -17,14 +17,13 @@ assert rc == 0, o
 res = dict(id=ident)
 try:
     run = open(f"{st}/demo{n}/RUN.txt").read()
+    m0 = re.search(r"go test[^\n]*?\s(\./\S+)", run)
+    pkgdir = m0.group(1).strip("'\"").rstrip("/").lstrip("./")
     places = []
-    for line in run.splitlines():
-        if line.strip().lower().startswith("place"):
-            places += re.findall(r"(\S+)\s*->\s*(\S+)", line)
-    for src, dst in places:
-        dst = re.sub(r"^(<repo>|/tmp/mut/C\d+)/", "", dst)
-        srcp = os.path.join(st, f"demo{n}", os.path.basename(src))
-        shutil.copy(srcp, os.path.join(wt, dst))
+    import glob
+    for f in glob.glob(os.path.join(st, f"demo{n}", "*.go")):
+        places.append((f, os.path.join(pkgdir, os.path.basename(f))))
+        shutil.copy(f, os.path.join(wt, pkgdir, os.path.basename(f)))
     m = re.search(r"go test[^\n]*", run)
     cmd = m.group(0).strip()
     cmd = re.sub(r"\s+2>&1.*$", "", cmd)
@@ -41,7 +40,6 @@ try:
     res["demo_fail_tail"] = o1[-600:] if rc1 != 0 else ""
     if full:
         for src, dst in places:   # suite without the demo file
-            dst = re.sub(r"^(<repo>|/tmp/mut/C\d+)/", "", dst)
             os.remove(os.path.join(wt, dst))
         rc2, o2 = sh("go test -vet=off -count=1 -timeout 25m ./... 2>&1", cwd=wt)
         fails = sorted(set(re.findall(r"^--- FAIL: (\S+)", o2, re.M)))
@@ -55,7 +53,12 @@ try:
         res["suite_flaky_failures"] = [f for f in newf if f not in still]
         res["suite_new_failures"] = still
         res["suite_build_ok"] = "[build failed]" not in o2
-    res["ok"] = res["demo_without_change"] == "pass" and res["demo_with_change"] == "fail" and res.get("applies") and (not full or (not res["suite_new_failures"] and res["suite_build_ok"]))
+    if not full and os.path.exists(f"{st}/verify{n}.json"):
+        old = json.load(open(f"{st}/verify{n}.json"))
+        for k in ("suite_new_failures", "suite_flaky_failures", "suite_build_ok"):
+            if k in old:
+                res[k] = old[k]
+    res["ok"] = res["demo_without_change"] == "pass" and res["demo_with_change"] == "fail" and res.get("applies") and ("suite_new_failures" in res and not res["suite_new_failures"] and res.get("suite_build_ok", False))
 finally:
     sh(f"git -C /repo worktree remove --force {wt}")
 print(json.dumps(res, indent=1))
